@@ -210,6 +210,12 @@ static std::vector<CanaryDef> &canary_defs() {
         add(EC_BACKEND_ISA_L_RS_VAND, 5, 3, 3, 2, 1234, false);
         add(EC_BACKEND_ISA_L_RS_CAUCHY, 8, 4, 4, 2, 64, false);
         add(EC_BACKEND_NULL, 4, 2, 2, 2, 300, false);
+        // objects much shorter than k blocks: whole data fragments are padding, so uninitialised (history-dependent)
+        // memory in them would show - on the un-sanitized flavour, where the allocator recycles dirty chunks
+        add(EC_BACKEND_LIBERASURECODE_RS_VAND, 10, 4, 4, 2, 101, false);
+        add(EC_BACKEND_FLAT_XOR_HD, 10, 5, 3, 2, 45, false);
+        add(EC_BACKEND_ISA_L_RS_VAND, 8, 3, 3, 1, 9, false);
+        add(EC_BACKEND_LIBERASURECODE_RS_VAND, 31, 1, 1, 2, 3, false);
     }
     return v;
 }
